@@ -590,6 +590,19 @@ def m_iter_cmp(I, c, a, b):
     return Ordering(seq_cmp(I, xs, ys))
 
 
+@model('Iterator::lt', 'Iterator::le', 'Iterator::gt', 'Iterator::ge', 'Iterator::partial_cmp')
+def m_iter_ord(I, c, a, b):
+    xs = [zx(deref_all(v)) for v in as_iter(I, a).drain(I)]
+    ys = [zx(deref_all(v)) for v in as_iter(I, b).drain(I)]
+    for v in xs + ys:
+        if not (isinstance(v, int) or is_sym(v)):
+            raise Unsupported('Iterator::%s over non-scalar items' % c.method)
+    o = seq_cmp(I, xs, ys)
+    if c.method == 'partial_cmp':
+        return Some(Ordering(o))
+    return {'lt': o < 0, 'le': o <= 0, 'gt': o > 0, 'ge': o >= 0}[c.method]
+
+
 @model('fn:once')
 def m_once(I, c, v):
     return ListIt([v])
@@ -1420,6 +1433,10 @@ def m_vec_deref(I, c, r):
 
 @model('slice::iter', 'slice::iter_mut', 'Vec::iter')
 def m_slice_iter(I, c, r):
+    d = deref_all(r)
+    if isinstance(d, (RStr, StringBuf)) and c.method == 'iter':
+        # `str::as_bytes()` is the same value as the str in this encoding: iterate over its bytes by reference
+        return VecRefIt(VecVal(list(sbytes(d))))
     return VecRefIt(vec_of(r))
 
 
